@@ -8,6 +8,7 @@ Open Scope R_scope.
 
 Definition RA : akern R :=
   {| a_power_scale := An_power_scale;
+     a_abs_applied := An_abs_applied;
      a_proportion := An_proportion;
      a_remaining := EV_remaining_demand;
      a_demand_met := An_demand_met;
